@@ -669,6 +669,31 @@ static void op_unpackchunk(void)
   free(Ls); free(psq); dsqdata_chunk_Destroy(chu);
 }
 
+/* dsqdata_chunk_Create() for the given limits, the packets placed where the loader fread()s them, dsqdata_unpack_chunk() in place:
+ * U, the offset of psq, every dsq[i] offset and L[i], and the unpacked prefix of smem */
+static void op_unpacksmem(void)
+{
+  int mode = (int) h_argi("mode", 2), maxpacket = (int) h_argi("maxpacket", 1), maxseq = (int) h_argi("maxseq", 1), np, i, N = 0, st;
+  uint32_t *psq = parse_words(h_arg("p"), &np);
+  ESL_DSQDATA dd; ESL_DSQDATA_CHUNK *chu; char *Ls; size_t len = 0, tot = 1; int64_t U;
+  for (i = 0; i < np; i++) if (ESL_DSQDATA_EOD(psq[i])) N++;
+  if (maxpacket < 1 || maxseq < 1 || np > maxpacket || N > maxseq || (np > 0 && ! ESL_DSQDATA_EOD(psq[np-1]))) { h_out("bad-op"); free(psq); return; }
+  memset(&dd, 0, sizeof(dd));
+  dd.chunk_maxseq = maxseq; dd.chunk_maxpacket = maxpacket; dd.pack5 = (mode == 5);
+  chu = dsqdata_chunk_Create(&dd);
+  if (chu->mdalloc < 7 * N + 8) { free(chu->metadata); chu->mdalloc = 7 * N + 8; chu->metadata = malloc(chu->mdalloc); }
+  for (i = 0; i < N; i++) { char *m = chu->metadata + 7 * i; int32_t t = -1; m[0] = 0; m[1] = 0; m[2] = 0; memcpy(m + 3, &t, 4); }
+  chu->N = N; chu->pn = np;
+  if (np) memcpy(chu->psq, psq, sizeof(uint32_t) * np);
+  st = dsqdata_unpack_chunk(chu, dd.pack5);
+  U  = ((char *) chu->psq - (char *) chu->smem) + 4 * (int64_t) maxpacket;
+  Ls = malloc((size_t) 40 * (N + 1)); Ls[0] = 0;
+  for (i = 0; i < N; i++) { len += sprintf(Ls + len, "%s%" PRId64 ":%" PRId64, i ? "," : "", (int64_t) ((char *) chu->dsq[i] - (char *) chu->smem), chu->L[i]); tot += chu->L[i] + 1; }
+  if (st != eslOK) h_out("%s", h_status(st));
+  else h_out("ok U=%" PRId64 " off=%" PRId64 " N=%d segs=%s smem=%s", U, (int64_t) ((char *) chu->psq - (char *) chu->smem), N, Ls, h_hex(chu->smem, (int64_t) tot));
+  free(Ls); free(psq); dsqdata_chunk_Destroy(chu);
+}
+
 /* ---------------------------------------------------------------------------------------------
  * dsqdata: write a database from generated records, read it back with consumer threads
  * ------------------------------------------------------------------------------------------- */
@@ -1075,9 +1100,13 @@ static void op_dsqopen(void)
       if (! had_abc) abc = NULL;
     } else {
       ESL_DSQDATA_CHUNK *chu; uint64_t h = 0xcbf29ce484222325ull; int nseq = 0, nch = 0; size_t clen = 0; char *cstr = malloc(64); size_t ccap = 64;
-      char hdr[256];
+      char hdr[256]; uint32_t filetype = 0;
+      /* the alphabet type as the index header states it. For the biosequence alphabets (the only ones esl_dsqdata_Write() produces) the
+       * alphabet Open() created must have exactly that type; for the toy alphabets (a corrupted type field 4 / 5) what esl_alphabet_Create()
+       * puts into abc->type is esl_alphabet.c's business (create_dice() labels itself eslCOINS), so the header field itself is reported */
+      { char ip[320]; FILE *tf; snprintf(ip, sizeof(ip), "%s.dsqi", a.base); if ((tf = fopen(ip, "rb")) != NULL) { if (fseek(tf, 8, SEEK_SET) != 0 || __real_fread(&filetype, 4, 1, tf) != 1) filetype = 0; fclose(tf); } }
       snprintf(hdr, sizeof(hdr), "%" PRIu64 "/%" PRIu64 "/%" PRIu64 "/%" PRIu32 "/%" PRIu32 "/%" PRIu32 "/%" PRIu32 "/%d/%d", dd->nseq, dd->nres, dd->max_seqlen,
-               dd->max_namelen, dd->max_acclen, dd->max_desclen, dd->flags, dd->abc_r->type, dd->pack5 ? 5 : 2);
+               dd->max_namelen, dd->max_acclen, dd->max_desclen, dd->flags, filetype >= 1 && filetype <= 3 ? dd->abc_r->type : (int) filetype, dd->pack5 ? 5 : 2);
       cstr[0] = 0;
       while ((st = esl_dsqdata_Read(dd, &chu)) == eslOK) {
         if (clen + 64 > ccap) { ccap *= 2; cstr = realloc(cstr, ccap); }
@@ -1129,6 +1158,7 @@ static void h_op(void)
   else if (strcmp(op, "rt5") == 0)         op_rt(1);
   else if (strcmp(op, "rt2") == 0)         op_rt(0);
   else if (strcmp(op, "unpackchunk") == 0) op_unpackchunk();
+  else if (strcmp(op, "unpacksmem") == 0) op_unpacksmem();
   else if (strcmp(op, "wq") == 0)          op_wq();
   else if (strcmp(op, "dsqwrite") == 0)    op_dsqwrite();
   else if (strcmp(op, "dsqopen") == 0) {
